@@ -245,7 +245,7 @@ def run_case(case):
                         out["tb"] = traceback.format_exc()[-2000:]
                         return out
                     ops = [t[2] for t in w.trace[rank][t0:]]
-                    ng, na = ops.count("Allgather"), ops.count("Alltoall")
+                    ng, na = sum(1 for o_ in ops if o_.lower().startswith("allgather")), sum(1 for o_ in ops if o_.lower().startswith("alltoall"))
                     nsteps = ng + na
                     if a == b:
                         kind = "same"
